@@ -1,7 +1,7 @@
 (* C08 property theorems: statements only, each closed by [exact]. *)
 From Boltons Require Import Lib.Prelude Lib.C08_Py Spec.C08_Spec Model.C08_Model
   Proofs.C08_Machine Proofs.C08_Tree Proofs.C08_Inject Proofs.C08_Cycle Proofs.C08_Paths
-  Proofs.C08_Copy Proofs.C08_Shared Proofs.C08_Witness.
+  Proofs.C08_Copy Proofs.C08_Shared Proofs.C08_Reraise Proofs.C08_Witness.
 
 (* The stack machine (work stack + exit sentinels + id registry + new_items_stack
    + path) IS the bottom-up recursion: for every input term (shared and cyclic
@@ -21,6 +21,21 @@ Theorem C08_no_reraise : forall mv reraise defs root,
   remap mv false defs root = remap (lift (total mv)) reraise defs root.
 Proof. exact remap_no_reraise. Qed.
 Print Assumptions C08_no_reraise.
+
+(* reraise_visit=True (the default) and a callback that may raise: the machine
+   returns the recursion (callback made total) CUT at the first call on which the
+   callback raises: Fail VisitError with exactly the calls up to and including
+   that one; if no call raises, the recursion's own outcome.  Together with
+   C08_machine_is_recursion and C08_no_reraise this covers every callback and
+   both values of reraise_visit. *)
+Theorem C08_reraise : forall mv defs root,
+  remap mv true defs root = cutO mv (srb_root impl_blank (total mv) defs root).
+Proof. exact remap_reraise. Qed.
+Print Assumptions C08_reraise.
+
+Example C08_reraise_inhabited :
+  exists lg, remap (Some ex_raising_visit) true [] ex_tree = Fail VisitError lg /\ length lg = 9.
+Proof. exact ex_reraise_ok. Qed.
 
 (* self-referential structures terminate: 2*size+1 loop iterations suffice *)
 Theorem C08_terminates : forall visit reraise defs root, remap (lift visit) reraise defs root <> OutOfFuel.
